@@ -1,15 +1,15 @@
+\* transition cover instance: every transition of two calls deep
 SPECIFICATION MCSpec
 CONSTANTS
   Parts = {0, 1}
   SubIds = {"s1"}
   NilFix = TRUE
-  MaxOps = 5
+  MaxOps = 3
   MaxMsgs = 2
   Paths <- AllPaths
   Gates <- AllGates
-  Cfgs <- AllCfgs
+  Cfgs <- NoAuto
   SubsetsOf <- PartSets
-INVARIANTS TypeOK X02_AckedStored X02_PausedQuiet X02_ActiveServedT X02_DeletedGone X02_SubsSeeLog X02_NoCrash
-PROPERTIES StepsOK
+INVARIANTS TypeOK
 VIEW MCView
 CHECK_DEADLOCK FALSE
